@@ -78,7 +78,7 @@ func main() {
 	// ---------------------------------------------------------------- UnprefixedHashes
 	uh := bt.Func("BuildTarget.UnprefixedHashes")
 	indexFn, sep, sliceLow, sliceHigh, wrap, guard := "", "", "", "-", "", ""
-	aliasInit, writesThrough, local := false, false, ""
+	aliasInit, writesThrough, local, indexVar := false, false, "", "index"
 	ast.Inspect(uh.Body, func(n ast.Node) bool {
 		switch x := n.(type) {
 		case *ast.AssignStmt:
@@ -118,8 +118,7 @@ func main() {
 					sep = bt.Src(c.Args[1])
 					// normalise the guard: replace the index variable by "i"
 					guard = strings.ReplaceAll(strings.ReplaceAll(bt.Src(x.Cond), bt.Src(as.Lhs[0]), "i"), " ", "")
-					sliceVar := bt.Src(as.Lhs[0])
-					defer func() { sliceLow = strings.ReplaceAll(sliceLow, sliceVar, "i") }()
+					indexVar = bt.Src(as.Lhs[0])
 				}
 			}
 		}
@@ -132,7 +131,7 @@ func main() {
 	if r, ok := uh.Body.List[len(uh.Body.List)-1].(*ast.ReturnStmt); ok && len(r.Results) == 1 && bt.Src(r.Results[0]) == local {
 		returnsLocal = true
 	}
-	sliceLow = strings.ReplaceAll(sliceLow, "index", "i")
+	sliceLow = strings.ReplaceAll(sliceLow, indexVar, "i")
 	out.Def("unprefixIndexFn", "String", xlib.LeanStr(indexFn))
 	out.Def("unprefixSep", "String", xlib.LeanStr(sep))
 	out.Def("unprefixGuard", "String", xlib.LeanStr(guard))
